@@ -200,7 +200,15 @@ pub fn expect(class: &str, prop: &str) -> Option<Expect> {
                     migrate: None,
                 },
                 Ser::As { name, ty } => Expect {
-                    name: k.canonical,
+                    // a reader meets the serialized name and resolves *that*: normally an alias of
+                    // this very property, but two properties of the bundled database are stored under
+                    // a descriptor that belongs to another canonical property (Sound.MaxDistance ->
+                    // xmlRead_MaxDistance_3 = alias of RollOffMaxDistance; MaterialService.Use2022Materials
+                    // -> Use2022MaterialsXml, canonical itself)
+                    name: match lookup(class, &name) {
+                        Lookup::Known(t) => t.canonical,
+                        _ => k.canonical,
+                    },
                     ty: cty,
                     wire_name: name,
                     wire_ty: ty.variant_type(),
